@@ -301,6 +301,12 @@ class CallMixin:
         self.register_axioms(spec)
         C = Ctx(self, st, names)
         short = spec.qualname
+        # arguments must have one of the classes the contract was verified for
+        for p, kind in spec.params.items():
+            v = names[p]
+            if isinstance(kind, OBJ) and isinstance(v, VObj) and kind.classes != ('str',) \
+                    and not set(v.classes) <= set(kind.classes):
+                self.check(st, self.type_fact(VObj(v.t, kind.classes)), f"precall[{site}]::{short}::argument_class::{p}", 'precondition')
         for cname, term in spec.requires(C):
             self.check(st, term, f"precall[{site}]::{short}::{cname}", 'precondition')
         for exc, condf in spec.raises.items():
